@@ -162,6 +162,11 @@ def check_case(case):
         v = case["value"]
         op = OpCode("x%02x" % v, v, {})
         _check_len(SCSICommand, op, T10.cdb_length(v), "value %02Xh" % v)
+        # an OpCode object whose value was assigned afterwards (the documented setter), coming from another group
+        for start in (0x00, 0x28, 0x88, 0xA0, 0x7F):
+            op_set = OpCode("x", start, {})
+            op_set.value = v
+            _check_len(SCSICommand, op_set, T10.cdb_length(v), "value %02Xh assigned to an OpCode created as %02Xh" % (v, start))
         # and through a real constructor
         from pyscsi.pyscsi.scsi_cdb_testunitready import TestUnitReady
 
